@@ -5,6 +5,7 @@ import logging
 from vlib.obs import Err, Abort, guarded, gz, gbool, gopt, glist
 
 PROP = "C09"
+ANCHORS = [('canopen.pdo.base', 'PdoMap.save'), ('canopen.pdo.base', 'PdoMap.read'), ('canopen.pdo.base', 'PdoMap.subscribe'), ('canopen.pdo.base', 'PdoMap.add_variable'), ('canopen.pdo.base', 'PdoMap.clear'), ('canopen.pdo.base', 'PdoMaps.__init__'), ('canopen.pdo', 'RPDO'), ('canopen.pdo', 'TPDO'), ('canopen.node.remote', 'RemoteNode.load_configuration')]
 MODEL_VO = ["theories/Model/PdoCfg.vo"]
 COQ_IMPORTS = "From CV Require Import Model.StrictDevice Model.PdoCfg."
 COQ_RUN = "run_pdocfg"
